@@ -43,6 +43,21 @@ def gen_C20(rng, tier):
             parts = [m[a:b] for a, b in zip([0] + cuts, cuts + [n])]
             toks = [hexb(p) if (p or rng.random() < 0.7) else 'nil' for p in parts]
             out.append(('keccak ' + ' '.join(toks), 'keccak/%dslices' % k))
+    # slices of ONE backing array, in and out of storage order, overlapping, with spare capacity
+    for _ in range(12 if tier == 'quick' else 120):
+        n = rng.choice([3, 8, 40, 140, 300])
+        arena = rnd_bytes(rng, n)
+        k = rng.randrange(1, 5)
+        pl = []
+        for _ in range(k):
+            o = rng.randrange(0, n)
+            ln = rng.randrange(0, min(n - o, 150) + 1)
+            pl += [o, ln]
+        out.append(('keccakarena %s %s' % (hexb(arena), lst(pl)), 'keccak/arena-%dslices' % k))
+        o = rng.randrange(0, n)
+        out.append(('blakearena %s %d %d' % (hexb(arena), o, rng.randrange(0, n - o + 1)), 'blake/arena'))
+    out.append(('keccakarena x616362 [0,1,2,1,1,1]', 'keccak/arena-out-of-order'))
+    out.append(('keccakarena x612d2d7461696c [0,1,4,2]', 'keccak/arena-spare-capacity'))
     out.append(('keccak', 'keccak/0slices'))
     out.append(('keccak nil', 'keccak/nil'))
     out.append(('keccak x x x x', 'keccak/empties'))
@@ -235,6 +250,44 @@ def gen_C19(rng, tier):
     return out
 
 
+
+def _load_table(path):
+    d = {}
+    for line in open(path):
+        name, rest = line.split(' ', 1)
+        d[name] = eval(rest.strip().replace(' ', ','))
+    return d
+
+
+def _mat_inv_T_apply(m, vec, p):
+    """solve (m^T) x = vec  (Go mix computes new = m^T * st)"""
+    n = len(vec)
+    A = [[m[j][i] % p for j in range(n)] + [vec[i] % p] for i in range(n)]
+    for c in range(n):
+        piv = next(r for r in range(c, n) if A[r][c] % p)
+        A[c], A[piv] = A[piv], A[c]
+        iv = pow(A[c][c], p - 2, p)
+        A[c] = [x * iv % p for x in A[c]]
+        for r in range(n):
+            if r != c and A[r][c]:
+                f = A[r][c]
+                A[r] = [(x - f * y) % p for x, y in zip(A[r], A[c])]
+    return [A[i][n] for i in range(n)]
+
+
+def invert_first_half(p, alpha, t, C, M, P, target):
+    """input state whose optimized-loop state right BEFORE the first partial round
+    (after ark0, 3 x (sbox, ark, mix M), sbox, ark, mix P) equals target"""
+    d = pow(alpha, -1, p - 1)
+    st = _mat_inv_T_apply(P, target, p)
+    st = [(x - C[4 * t + i]) % p for i, x in enumerate(st)]
+    st = [pow(x, d, p) for x in st]
+    for r in (2, 1, 0):
+        st = _mat_inv_T_apply(M, st, p)
+        st = [(x - C[(r + 1) * t + i]) % p for i, x in enumerate(st)]
+        st = [pow(x, d, p) for x in st]
+    return [(x - C[i]) % p for i, x in enumerate(st)]
+
 # --------------------------------------------------------------------------- C01 / C07 / C10 / C08
 def mont_special():
     """regular values whose MONTGOMERY limbs are boundary patterns (raw = 1, 2, 2^64-1, 2^64, ...)"""
@@ -267,6 +320,18 @@ def gen_C01(rng, tier):
             tgt = [rng.choice(sp) for _ in range(n + 1)]
             st = [(tv - c) % Q for tv, c in zip(tgt, rc0)]
             out.append(('poseidon %d %d %s' % (st[0], rng.choice([1, n + 1]), lst(st[1:])), 'HashWithStateEx/first-sbox-special/t=%d' % (n + 1)))
+        # states crafted (by inverting the first half) so that the state entering the FIRST
+        # PARTIAL round has zero / one / Montgomery-special lanes
+        try:
+            tb = _load_table('/verif/_build/tables/poseidon_t%d.txt' % (n + 1))
+            for k in range(2 if tier == 'quick' else 10):
+                tgt = [rng.randrange(Q) for _ in range(n + 1)]
+                for pos in rng.sample(range(n + 1), min(n + 1, rng.choice([1, 2]))):
+                    tgt[pos] = rng.choice([0, 0, 1] + mont_special()[:3])
+                st = invert_first_half(Q, 5, n + 1, tb['C'], tb['M'], tb['P'], tgt)
+                out.append(('poseidon %d %d %s' % (st[0], rng.choice([1, n + 1]), lst(st[1:])), 'HashWithStateEx/partial-round-special/t=%d' % (n + 1)))
+        except (OSError, StopIteration, KeyError):
+            pass
         for v in vecs:
             cap = rng.choice([0, 0, 1, Q - 1, rng.randrange(Q)])
             nouts = rng.choice([1, n + 1, rng.randrange(1, n + 2)])
@@ -321,6 +386,22 @@ def gen_C10(rng, tier):
             w = [0] * 12
             w[i] = v
             out.append(('gold ' + lst(w), 'single-lane'))
+    try:
+        tb = _load_table('/verif/_build/tables/gold_tables.txt')
+        n = 12
+        Mg = [[(tb['mcirc'][(i - j) % n] + (tb['mdiag'][i] if i == j else 0)) % PG for j in range(n)] for i in range(n)]
+        for k in range(40 if tier == 'quick' else 600):
+            tgt = [rng.randrange(PG) for _ in range(12)]
+            for pos in rng.sample(range(12), rng.choice([1, 1, 2, 3])):
+                tgt[pos] = rng.choice([0, 0, 0, 1, PG - 1])
+            st = invert_first_half(PG, 7, 12, [x % PG for x in tb['c']], Mg, [[x % PG for x in r] for r in tb['p']], tgt)
+            if rng.random() < 0.3:
+                st = [x + PG if x + PG < 2**64 and rng.random() < 0.5 else x for x in st]
+            out.append(('gold ' + lst(st), 'partial-round-special-lane'))
+        z = invert_first_half(PG, 7, 12, [x % PG for x in tb['c']], Mg, [[x % PG for x in r] for r in tb['p']], [0] * 12)
+        out.append(('gold ' + lst(z), 'partial-round-all-zero'))
+    except (OSError, StopIteration, KeyError):
+        pass
     for _ in range(reps):
         k = rng.random()
         if k < 0.4:
@@ -512,6 +593,18 @@ def gen_C18(rng, tier):
         vals = [0, 1, p - 1, 2, 3, 4, p - 4]
         tors = two_power_torsion(p, e, nr)
         vals += tors + [t * t % p for t in tors] + [t * rng.randrange(1, p) ** 2 % p for t in tors[:6]]
+        # squares whose Tonelli-Shanks loop needs every number of corrections 0..e-1:
+        # x^s = g^(-(2^e - 2^j)), times an element of odd order
+        s_odd = (p - 1) >> e
+        g = tors[e]                      # order 2^e
+        u = pow(s_odd, -1, 1 << e)
+        for j in range(1, e + 1):
+            for _ in range(1 if tier == 'quick' else 4):
+                w = pow(rng.randrange(2, p), 1 << e, p)
+                vals.append(pow(g, (-((1 << e) - (1 << j)) * u) % (1 << e), p) * w % p)
+        # discrete logs with random bit patterns (squares and non-squares)
+        for _ in range(20 if tier == 'quick' else 300):
+            vals.append(pow(g, rng.randrange(1 << e), p) * pow(rng.randrange(2, p), 1 << e, p) % p)
         n = 20 if tier == 'quick' else 400
         for _ in range(n):
             x = rng.randrange(p)
